@@ -892,6 +892,13 @@ def unit_backup(U_):
             steps, _, reason, pre_model = run.plan(base, prefix)
             assert not reason
             for op, must_fail in backup_ops(U_.thorough):
+                if op.get("fail_at") is None:
+                    # whether a rejected duplicate / invalid strategy bites depends on the pre-state: ask the model
+                    try:
+                        pre_model.copy().apply(op)
+                        must_fail = False
+                    except OutOfScope:
+                        must_fail = True
                 for stale in stales:
                     for explicit in ((True, None) if (U_.thorough or stale == "none") else (None,)):
                         if stale != "none" and not U_.thorough and must_fail and op.get("fail_at") not in (None, 0, 3):
